@@ -167,6 +167,13 @@ PROPERTIES = {
     'scope': 'one kernel only: per operator, the TypeScript template and the WebAssembly instruction emitted by the two real '
              'printers denote the same function on non-excluded operands; runtime libraries, string constants, Vec are not covered',
   },
+  'C06': {
+    'verus': ['litgate'],
+    'kani': [],
+    'level': 'proof',
+    'scope': 'one clause only: an integer literal outside the 32-bit range is reported (TokenProducer::process_raw_token); '
+             'every checker-side clause of C06 (types, arity, resolution, visibility, conformance, exhaustiveness) is not covered',
+  },
   'C10': {
     'verus': ['depgraph'],
     'kani': [],
@@ -249,6 +256,11 @@ STANDING_ASSUMPTIONS = {
     'double-precision a / b has the same floor as the real quotient for |a|, |b| < 2^31 (argued in the unit header)',
     'bitwise and shift operators (& | ^ << >>>) are not compared: the compiler never emits them for source programs',
     'vstd rust_div / rust_rem = truncating division (proved in unit foldv)',
+  ],
+  'litgate': [
+    'Heap, ErrorSet, PStr, WrappedLogosLexer are opaque (R7); str::parse::<i64> is modelled by decimal_value (Ok exactly for numerals that fit i64); format!("-{s}") prepends a minus sign',
+    'the lexer produces only numerals 0|[1-9][0-9]* for IntLiteral tokens (logos regex, not checked); tokens of one producer share their module reference',
+    'the parser later turns the literal text into an i32 with parse::<i32>().unwrap_or(0): that the accepted texts parse is implied by the proved range, not re-checked',
   ],
   'pstr': [
     'CBMC 6.11 / Kani 0.68 bit-precise semantics of Rust MIR; little-endian x86_64 layout of the union',
